@@ -261,7 +261,19 @@ def evalOne (prop : String) (cfg : Cfg) (fx : Fixes) (a : Acc) (line h : Nat) (o
   let (st1, mo) := if fx == {} then step cfg st op ora else stepFx fx cfg st op ora
   let (sp1, so) := if fx == {} then sStep cfg sp opS ora else sStepFx fx cfg sp opS ora
   a := { a with sts := a.sts.set! h st1, sps := a.sps.set! h sp1 }
-  let ts := (monStepOk a.taints[h]! st sp op (mo == .ok)).filter fun t => !(repairedIds fx).contains t.1
+  let ts0 := (monStepOk a.taints[h]! st sp op (mo == .ok)).filter fun t => !(repairedIds fx).contains t.1
+  -- C07 does not compare the results of single ops.  When model and durable spec disagree on whether
+  -- the op succeeded, the two trees differ from here on at every path the op addresses: what explains
+  -- a divergence at a related path (e.g. the op runs inside a directory that finding 5 renamed)
+  -- explains the divergence at those paths too.  (In C10 such an op is an O failure on the spot.)
+  -- finding 4 through the random background sync (the oracle says whether it happened)
+  let ts0 := if ora.coin && patCoinSyncReorders st op && !(repairedIds fx).contains 4
+             then ts0 ++ (opPaths st op).map fun p => (4, p) else ts0
+  let isErr (o : Obs) : Bool := match o with | .err _ => true | _ => false
+  let ts := if prop == "C07" && (isErr mo != isErr so) then
+      let ps := opPaths st op
+      ts0 ++ (ts0.filter fun t => ps.any fun p => related t.2 p).flatMap fun t => ps.map fun p => (t.1, p)
+    else ts0
   a := { a with taints := a.taints.set! h ts, used := a.used.set! h true }
   if !a.crashed[h]! && op != .crash then
     a := { a with inFrag := a.inFrag.set! h (a.inFrag[h]! && fragOk sp.l op && !ora.coin),
@@ -294,8 +306,12 @@ def evalOne (prop : String) (cfg : Cfg) (fx : Fixes) (a : Acc) (line h : Nat) (o
       -- reaches the durable image, so it explains nothing there
       -- (the same holds for finding 6: two pending renames are flushed in order by sync_dir)
       -- finding 11 is a durability defect only (the live view is right)
-      let ts := if prop == "C07" then ts.filter (fun t => t.1 != 1 && t.1 != 6)
-                else ts.filter (fun t => t.1 != 11)
+      -- finding 12 (directories keyed by path) is a durability defect only; it is the explanation of
+      -- last resort (its second trigger fires on every re-created directory name)
+      let ts := if prop == "C07" then
+                  let ts := ts.filter (fun t => t.1 != 1 && t.1 != 6)
+                  ts.filter (fun t => t.1 != 12) ++ ts.filter (fun t => t.1 == 12)
+                else ts.filter (fun t => t.1 != 11 && t.1 != 12)
       let pat := match explain ts bad with
         | some n => findingId prop n
         | none => "none"
@@ -532,7 +548,9 @@ def enumRun (prop : String) (len : Nat) (full : Bool) : IO Unit := do
             | _ => []
         if !badp.isEmpty then
           ok := false
-          pat := match explain ts badp with | some n => findingId prop n | none => "none"
+          let tse := if prop == "C07" then ts.filter (fun t => t.1 != 12) ++ ts.filter (fun t => t.1 == 12)
+                     else ts.filter (fun t => t.1 != 11 && t.1 != 12)
+          pat := match explain tse badp with | some n => findingId prop n | none => "none"
           detail := s!"at op {idx} ({renderOp op}): impl={renderObs mo} spec={renderObs so}"
       st := st1
       sp := sp1
